@@ -170,24 +170,35 @@ def c19_ctl_oracle(line, res):
     return None
 
 
+def c19_ctl_classify(line, res):
+    r = gens.fields(res).get("res", "?")
+    if r in ("-", "?"):
+        return "no-reserve"
+    z = r.count("0")
+    kinds = ("q" if ("R" in line.split("ops=")[1]) else "") + ("k" if any(c in line.split("ops=")[1] for c in "r") else "")
+    return "refused=%s keys=%s" % ("0" if z == 0 else ("1-3" if z <= 3 else ">3"), kinds)
+
+
 # ---- kind prefetch (e2e, real clock)
 def c19_e2e_gen(rng, tier):
+    # lifetime 8 s: the window (last quarter) is 6 s..8 s after the store, and the backend keeps the entry for at
+    # least 7 s (its clock counts whole seconds), so 6.15 s..6.9 s is inside both
     base = [
-        ("ok", "u", 4, 50, 1500, "mixed"),
-        ("ok", "t", 4, 50, 1500, "mixed"),
-        ("ok", "u", 4, 50, 1500, "udp"),
-        ("ok", "t", 4, 50, 1500, "tcp+gnet"),
-        ("ok", "u", 4, 50, 1500, "http-get+http-post+fasthttp-get+fasthttp-post"),
-        ("silent", "u", 4, 50, 0, "mixed"),
-        ("fail", "t", 4, 50, 200, "mixed"),
-        ("fail", "t", 4, 20, 150, "udp"),
-        ("neg", "u", 4, 50, 100, "mixed"),
-        ("neg", "t", 4, 20, 100, "tcp"),
-        ("early", "u", 4, 50, 0, "mixed"),
+        ("ok", "u", 8, 50, 1500, "mixed"),
+        ("ok", "t", 8, 50, 1500, "mixed"),
+        ("ok", "u", 8, 50, 1500, "udp"),
+        ("ok", "t", 8, 50, 1500, "tcp+gnet"),
+        ("ok", "u", 8, 50, 1500, "http-get+http-post+fasthttp-get+fasthttp-post"),
+        ("silent", "u", 8, 50, 0, "mixed"),
+        ("fail", "t", 8, 50, 200, "mixed"),
+        ("fail", "t", 8, 20, 150, "udp"),
+        ("neg", "u", 8, 50, 100, "mixed"),
+        ("neg", "t", 8, 20, 100, "tcp"),
+        ("early", "u", 8, 50, 0, "mixed"),
     ]
     if tier == "thorough":
-        base += [("ok", "u", 8, 200, 2500, "mixed"), ("ok", "t", 12, 100, 3500, "mixed"), ("ok", "p", 4, 50, 1500, "mixed"),
-                 ("fail", "t", 8, 50, 300, "mixed"), ("neg", "u", 8, 50, 200, "mixed"), ("silent", "t", 8, 100, 0, "mixed")] * 3
+        base += [("ok", "u", 12, 200, 2500, "mixed"), ("ok", "t", 16, 100, 3500, "mixed"), ("ok", "p", 8, 50, 1500, "mixed"),
+                 ("fail", "t", 12, 50, 300, "mixed"), ("neg", "u", 12, 50, 200, "mixed"), ("silent", "t", 12, 100, 0, "mixed")] * 3
     out = []
     for i, (mode, up, ttl, n, delay, ls) in enumerate(base):
         lab = bytes(rng.choice(b"abcdefghijklmnopqrstuvwxyz0123456789") for _ in range(8))
@@ -274,7 +285,7 @@ PROPS["C19"] = dict(
     kinds=[
         dict(name="needprefetch", gen=c19_np_gen, oracle=c19_np_oracle, compare=c19_np_compare,
              classify=c19_np_classify, nontrivial=lambda l, r: c19_np_classify(l, r) != "band-skipped", timeout=300),
-        dict(name="prefetchctl", gen=c19_ctl_gen, oracle=c19_ctl_oracle, timeout=300,
+        dict(name="prefetchctl", gen=c19_ctl_gen, oracle=c19_ctl_oracle, classify=c19_ctl_classify, timeout=300,
              nontrivial=lambda l, r: "ops=-" not in l),
         dict(name="prefetch", gen=c19_e2e_gen, oracle=c19_e2e_oracle, compare=c19_e2e_compare,
              classify=c19_e2e_classify, nontrivial=lambda l, r: r.startswith("timing=ok"), timeout=240),
